@@ -428,6 +428,57 @@ func mutantsOf(repo, rel string) []mutant {
 		}
 		return found, line, what
 	})
+	// --- a returned value is changed on its way out (four transformations are tried on every result expression; the type checker keeps
+	// the one that fits its type): what a helper hands back is what the rules at its callers take it to be
+	for _, mode := range []string{"str", "cut", "inc", "not"} {
+		mode := mode
+		apply("ret-transform", func(fset *token.FileSet, f *ast.File, k int) (bool, int, string) {
+			idx := 0
+			found, line, what := false, 0, ""
+			ast.Inspect(f, func(n ast.Node) bool {
+				if found {
+					return false
+				}
+				rs, ok := n.(*ast.ReturnStmt)
+				if !ok {
+					return true
+				}
+				for i, e := range rs.Results {
+					switch x := e.(type) {
+					case *ast.BasicLit:
+						continue
+					case *ast.Ident:
+						if x.Name == "nil" || x.Name == "true" || x.Name == "false" || x.Name == "err" {
+							continue
+						}
+					case *ast.FuncLit, *ast.CompositeLit:
+						continue
+					}
+					if idx == k {
+						found = true
+						line = fset.Position(e.Pos()).Line
+						old := oneLine(fset, e)
+						pe := &ast.ParenExpr{X: e}
+						switch mode {
+						case "str":
+							rs.Results[i] = &ast.BinaryExpr{X: pe, Op: token.ADD, Y: &ast.BasicLit{Kind: token.STRING, Value: "\"x\""}}
+						case "cut":
+							rs.Results[i] = &ast.SliceExpr{X: pe, High: &ast.BasicLit{Kind: token.INT, Value: "0"}}
+						case "inc":
+							rs.Results[i] = &ast.BinaryExpr{X: pe, Op: token.ADD, Y: &ast.BasicLit{Kind: token.INT, Value: "1"}}
+						case "not":
+							rs.Results[i] = &ast.UnaryExpr{Op: token.NOT, X: pe}
+						}
+						what = fmt.Sprintf("return %s -> %s", old, oneLine(fset, rs.Results[i]))
+						return false
+					}
+					idx++
+				}
+				return true
+			})
+			return found, line, what
+		})
+	}
 	// --- two adjacent arguments of a call swapped (only variants that still type-check survive the loader: the two have one type)
 	apply("arg-swap", func(fset *token.FileSet, f *ast.File, k int) (bool, int, string) {
 		idx := 0
